@@ -503,7 +503,15 @@ fn crash_leaf_inner(stats: &mut Stats, dir: &Path, dir2: &Path, leaf: &Leaf, cfg
     }
     for k in targets {
         let ctx = Ctx { cfg, leaf, dir2, hist: &hist, op_index: k };
+        let before = stats.evaluations;
         crash_points_of(stats, &ctx, &sims[k], &hist.events[k]);
+        let n = stats.evaluations - before;
+        if n > 40 {
+            stats.sample(|| json!({"engine": "crash", "policy": cfg.policy.name(), "power_loss": cfg.power_loss, "seed": leaf.seed.name,
+                "ops": leaf.ops.iter().map(|o| o.short()).collect::<Vec<_>>(), "crashed_op": hist.cops[k].to_json(),
+                "fs_effects_of_that_op": hist.events[k].iter().filter(|e| Sim::is_mutation(e)).map(short_event).collect::<Vec<_>>(),
+                "images_recovered_incl_second_crash": n}));
+        }
     }
 }
 
